@@ -44,12 +44,15 @@ HasChain(mm) ==
 \* ne = 1 on a mesh with a closed-loop interface asks for a mesh edge from a vertex to itself
 LoopNe1(mm, ne) == ne = 1 /\ \E p \in Paths(mm) : p[1] = p[Len(p)]
 
-\* a contractible two-point interface whose two ends are also the ends of another interface (a sliver /
-\* lens between them that is not a cell): Cell.replace_vertex then removes the wrong occurrence
+\* a contractible two-point interface (a, b) and a cell whose cycle contains a and b but not next to each
+\* other (a second interface a - x - b runs along that cell: a sliver between the two that is not a cell).
+\* Cell.replace_vertex then substitutes the new vertex for one end and REMOVES the other, so x ends up on
+\* the wrong side of the merged vertex
 HasLens(mm) ==
   LET PB == Paths(mm)
       CT == {p \in PB : Len(p) = 2 /\ NCells(mm, p[1]) < 3 /\ NCells(mm, p[2]) < 3}
-  IN  \E p \in CT, q \in PB : q # p /\ {q[1], q[Len(q)]} = {p[1], p[2]}
+      Rc(q) == {q[i] : i \in DOMAIN q}
+  IN  \E p \in CT, c \in Ce(mm) : p[1] \in Rc(mm.C[c]) /\ p[2] \in Rc(mm.C[c]) /\ ~ConsecutiveIn(mm.C[c], p[1], p[2])
 LensClauses == {"C09.cycle_edges", "C09.cycle_simple"}
 \* two interfaces with the same pair of ends: what the skeleton parser's "triangles in the middle" step looks
 \* for.  That step (op TRI) deletes the edges of the vertex it merges while iterating the vertex's live
@@ -62,6 +65,11 @@ TriClauses == {"C09.edge_missing", "C09.edge_listed", "C09.cycle_edges"}
 \* points, except the sides of artefact triangles (both ends with 3 mesh edges and 2 cells).  On coarser
 \* generated contours get_artifacts takes ordinary border junctions for artefacts; a failure there that is
 \* not the triangle-removal finding is a rejected input, not a verdict.
+\* the last mesh edge the skeleton parser created stays referenced by a loop variable of create_lattice:
+\* deleting it never runs its destructor; when both its ends are artefact vertices do_t3_transition
+\* then stumbles over the stale id (KeyError)
+PinnedLast(mm) == mm.ne > 0 /\ LET a == mm.E[mm.ne][1]  b == mm.E[mm.ne][2] IN
+                    Deg(mm, a) = 3 /\ NCells(mm, a) = 2 /\ Deg(mm, b) = 3 /\ NCells(mm, b) = 2
 SKPremise(mm) == \A p \in Paths(mm) : Len(p) >= 4 \/ (/\ Deg(mm, p[1]) = 3 /\ NCells(mm, p[1]) = 2
                                                      /\ Deg(mm, p[Len(p)]) = 3 /\ NCells(mm, p[Len(p)]) = 2)
 
@@ -79,12 +87,14 @@ DoStep(e) ==
          triR   == ~ok /\ ~rej /\ e.op \in {"TRI", "SK"} /\ e.raised = "IndexError" /\ HasTwin(m)
          triL   == ok /\ ~rej /\ e.op \in {"TRI", "SK"} /\ (bad \cap TriClauses) # {} /\ HasTwin(m)
          bad0   == IF ~ok THEN {"C09.raised"} ELSE bad
-         skRej  == e.op = "SK" /\ ~rej /\ ~triR /\ ~triL /\ bad0 # {} /\ ~SKPremise(m)
-         fails  == IF rej \/ chainK \/ triR \/ skRej THEN {} ELSE IF ~ok THEN {"C09.raised"}
+         pinK   == ~ok /\ ~rej /\ e.op = "SK" /\ e.raised = "KeyError" /\ ~triR /\ PinnedLast(m)
+         skRej  == e.op = "SK" /\ ~rej /\ ~triR /\ ~triL /\ ~pinK /\ bad0 # {} /\ ~SKPremise(m)
+         fails  == IF rej \/ chainK \/ triR \/ pinK \/ skRej THEN {} ELSE IF ~ok THEN {"C09.raised"}
                    ELSE IF lensK THEN bad \ LensClauses ELSE IF triL THEN bad \ TriClauses ELSE bad
          kf     == (IF chainK THEN {"KF_ContractionChain:C09.raised"} ELSE {}) \cup
                    (IF lensK THEN {"KF_LensContraction:" \o c : c \in bad \cap LensClauses} ELSE {}) \cup
                    (IF triR THEN {"KF_TriangleRemoval:C09.raised"} ELSE {}) \cup
+                   (IF pinK THEN {"KF_PinnedLastEdge:C09.raised"} ELSE {}) \cup
                    (IF triL THEN {"KF_TriangleRemoval:" \o c : c \in bad \cap TriClauses} ELSE {})
          hits   == {"C09.consistent", "C09.after_" \o e.op}
      IN  EmitV(e, fails, kf, hits, {}, rej \/ skRej)
